@@ -87,12 +87,21 @@ def chunked_operations(tier):
     return ops
 
 
+def unit_operations():
+    """layout ts: the timestamp key column of the operation's frame in another resolution than the frames that
+    created the partitions (the same instants: the same partitions)"""
+    return [{"op": "overwrite", "frame": "a", "unit": "ns"}, {"op": "overwrite", "frame": "ab", "unit": "ms"},
+            {"op": "overwrite", "frame": "c", "unit": "s"}, {"op": "append", "frame": "a", "unit": "ns"}]
+
+
 def operations(nparts, lay="plain", tier="quick", prev=None):
     """Operation alphabet in a state of layout `lay` reached by operation `prev`."""
     if lay in ("ts", "idx") and tier != "thorough":
         ops = [o for o in base_operations() if o["op"] in ("append", "overwrite")]
-        return ops + chunked_operations(tier)
+        return ops + chunked_operations(tier) + (unit_operations() if lay == "ts" else [])
     ops = base_operations() + chunked_operations(tier)
+    if lay == "ts":
+        ops += unit_operations()
     if lay in ("plain", "many") and nparts >= 1:
         for f in ("a", "c", "ab"):
             ops.append({"op": "overwrite", "frame": f, "catkeys": True})
@@ -194,7 +203,7 @@ def pkey(name, lay):
     return name
 
 
-def make_frame(name, step, nparts, lay="plain", catkeys=False):
+def make_frame(name, step, nparts, lay="plain", catkeys=False, unit=None):
     import pandas as pd
     rows = FRAMES.get(name) or EXTRA_FRAMES[name]
     ids = [step * 100 + i for i in range(len(rows))]
@@ -207,6 +216,8 @@ def make_frame(name, step, nparts, lay="plain", catkeys=False):
         vcol = pd.Series([vs[0], 3.5], dtype=object)
     pcol = (pd.Series([pval(r[0], lay) for r in rows]) if lay == "ts"
             else pd.Series([r[0] for r in rows], dtype=object))
+    if unit and lay == "ts":
+        pcol = pcol.astype("datetime64[%s]" % unit)
     if catkeys:
         # the partition column as a categorical that lists every partition value of the dataset, as a frame read
         # from the dataset and cut down to some partitions has it (read - modify - write back)
@@ -412,12 +423,12 @@ def run(point):
         refused = None
         try:
             if op["op"] == "append":
-                df, rows = make_frame(op["frame"], step, nparts, lay, op.get("catkeys", False))
+                df, rows = make_frame(op["frame"], step, nparts, lay, op.get("catkeys", False), op.get("unit"))
                 fastparquet.write(path, df, file_scheme="hive", partition_on=parts, append=True,
                                   row_group_offsets=op.get("offsets"))
                 model = model + rows
             elif op["op"] == "overwrite":
-                df, rows = make_frame(op["frame"], step, nparts, lay, op.get("catkeys", False))
+                df, rows = make_frame(op["frame"], step, nparts, lay, op.get("catkeys", False), op.get("unit"))
                 new_model = [r for r in model if part_of(r, nparts) not in {part_of(x, nparts) for x in rows}] + rows
                 fastparquet.write(path, df, file_scheme="hive", partition_on=parts, append="overwrite",
                                   row_group_offsets=op.get("offsets"))
